@@ -1,1 +1,2 @@
-(* Props/C10.v -- stub, to be filled *)
+(* C10 statements pinned here *)
+From A1 Require Import Per.Prim Per.X691.
